@@ -124,9 +124,6 @@ def run(tier, replay=None):
     stats["estimator_values_equal_model"] = len(pts) - len(formula_mismatch)
     for (p, want, got) in formula_mismatch[:5]:
         ctx.note_drift(f"MemModel.tla (as-built) gives (enc, lzma dec, lzma2 dec) = {want} KiB for {p} but the code returns {got}")
-    if len(formula_mismatch) > len(pts) // 4:
-        raise ToolError(f"MemModel.tla disagrees with the real estimators on {len(formula_mismatch)} of {len(pts)} grid points: "
-                        f"spec/asbuilt_mem.json does not describe this tree (first: {formula_mismatch[0]})")
 
     # ---------------------------------------------------------------- stage 2b: measured peaks
     dmax = (32 if quick else 256) * MiB
@@ -234,6 +231,13 @@ def run(tier, replay=None):
         else:
             classes.add(("mem_limit", dict_class(c["opts"]["dict_size"]), "above" if above else "within", r["outcome"]))
     stats["limit_cases"] = len(lim)
+
+    # The model must describe this tree. Checked only now: if the estimators changed in a way that breaks the property,
+    # the measured oracles above have already produced a VIOLATION with a replay, which is the more useful verdict.
+    if len(formula_mismatch) > len(pts) // 4 and not ctx.violations and not ctx.known_hits:
+        raise ToolError(f"MemModel.tla disagrees with the real estimators on {len(formula_mismatch)} of {len(pts)} grid points while every "
+                        f"measured object satisfies the property: spec/asbuilt_mem.json does not describe this tree (first: {formula_mismatch[0]})")
+    ctx.cov["estimator_values_differ_from_model"] = len(formula_mismatch)
 
     # ---------------------------------------------------------------- stage 3: the measurements as a trace
     t0 = time.time()
